@@ -47,6 +47,10 @@ def run(chk, driver, tier):
                 for dev in ("", ".dev2"):
                     for loc in ("", "+abc", "+1"):
                         grid.append(rel + pre + post + dev + loc)
+    # numeric fields on either side of digit-count boundaries, in every position (epoch, release, pre, post, dev, local segments)
+    for t in pd.BOUND_TEMPLATES:
+        for x in ('9', '10', '99999999', '100000000', '99999999999999999999', '100000000000000000000'):
+            grid.append(t % tuple([x] * t.count('%s')))
     sample = grid + [s for s in strings if all(ord(c) < 128 for c in s)][:400 if tier == "thorough" else 150]
     # the comparison has to be DEFINED on every string: a string parse_version cannot take is a violation by itself
     parsed, ok_sample = [], []
